@@ -741,7 +741,9 @@ def rule_open_spans(ctx, facts, rule):
                 [bb for bb in cs.calls_re(r"fastant::instant::Instant::now$", cleanup=False)]
             is_now = any(x.kind == "call" and str(x.key).endswith("Instant::now") for x in src)
             unreg = sites_star(facts, cs, lambda g, t: t["callee"].endswith("LocalSpanStack::unregister_and_collect"))
-            after = bool(now) and bool(unreg) and all(any(cs.dominates(u, n) for u in unreg) for n in now)
+            # "after": the clock is never read on a path that unregisters the scope later (on the path that has no scope
+            # to unregister -- a collector that was refused or already collected -- there is nothing to be after)
+            after = bool(now) and bool(unreg) and not any(set(unreg) & cs.reach([(n, cs.term(n)["target"])]) for n in now if cs.term(n).get("target") is not None)
             ok = is_now and after
         ctx.check(ok, rule, cs.path, cs.span, "the collection time is Instant::now() taken after the scope was unregistered", "",
                   "end_time origin / order check failed", extra="end_time")
